@@ -218,7 +218,7 @@ CONTROLS = [
         (L, "(([uU]ll)|([uU]LL)|(ll[uU]?)|(LL[uU]?)|([uU][lL])|([lL][uU]?)|[uU])?", "(([uU]ll)|([uU]LL)|(ll[uU]?)|(LL[uU]?)|([lL][uU]?)|[uU])?")),
     pos("digit separator dropped from hex digits", ["C08"], ["R8.8"],
         (L, '''hex_digits = "[0-9a-fA-F']+"''', '''hex_digits = "[0-9a-fA-F]+"''')),
-    pos("keyword removed from the set", ["C01", "C02"], ["R1.8", "R2.5"],
+    pos("keyword removed from the set", ["C01"], ["R1.8"],
         (L, '''        "wchar_t",
         "while",''', '''        "while",''')),
     pos("rule swallows text", ["C08"], ["R8.1"],
@@ -403,7 +403,7 @@ CONTROLS += [
                 method.has_trailing_return = True
                 method.return_type = return_type''', '''                return_type = self._parse_trailing_return_type(method.return_type)
                 method.return_type = return_type''')),
-    pos("keyword removed from the lexer set", ["C08", "C01"], ["R8", "R1.8"],
+    pos("keyword removed from the lexer set", ["C01"], ["R1.8"],
         (L, '''        "wchar_t",
         "while",''', '''        "while",''')),
     pos("fundamental type dropped from the parser table", ["C02"], ["R2.5"],
